@@ -25,6 +25,8 @@ type JoinStep struct {
 	Resend bool  `json:"resend,omitempty"`    // unite: send the previous slice object again
 	Spare  int   `json:"spare_cap,omitempty"` // unite: the slice is cut out of a larger buffer: cap = len + spare
 	Nil    bool  `json:"nil,omitempty"`       // unite: a nil slice (an empty input slice like any other)
+	Win    bool  `json:"window,omitempty"`    // unite: the slice is a window base[Off:Off+Len] of one array shared by all windows (they may overlap; capacity runs to the end of the array)
+	Off    int   `json:"window_offset,omitempty"`
 }
 
 type JoinScenario struct {
@@ -46,6 +48,7 @@ type JoinScenario struct {
 	StopKind          string `json:"stop_kind,omitempty"`
 	StopBeforeRelease bool   `json:"stop_before_release,omitempty"`
 	StopDelay         int64  `json:"stop_delay_ns,omitempty"`
+	WinBase           int    `json:"window_array_len,omitempty"` // unite: length of the array the window slices are cut from
 	StopConcurrent    bool   `json:"stop_concurrent,omitempty"`  // Stop() is called from another goroutine while the consumer keeps reading
 	PreNew            int    `json:"steps_before_new,omitempty"` // that many leading steps are written into the (buffered) input before the discipline is created
 	CloseBeforeNew    bool   `json:"close_before_new,omitempty"` // all steps fit the buffer: the input is written and closed before creation
@@ -83,6 +86,7 @@ type inRec struct {
 	Ptr    uintptr
 	Cap    int
 	slice  []int // keeps the input slice alive so that its address stays unique
+	full   []int // copy of slice[:cap] taken before the write: input slices are never written to by anybody
 }
 
 type JoinTrace struct {
@@ -100,6 +104,7 @@ type JoinTrace struct {
 	StopCalled      int64
 	StopRet         int64 // -1 if Stop did not return within the bound
 	AfterStop       string
+	InputModified   string // an input slice (over its whole capacity) differs from what it held when it was sent
 	afterStopSlices int
 	Events          int
 }
@@ -205,7 +210,7 @@ func runJoin(sc JoinScenario, inBubble bool, rng *rand.Rand) *JoinTrace {
 	now := func() int64 { return int64(time.Since(base)) }
 	tr.T0 = 0
 	next := 0
-	var prev []int
+	var prev, winBase []int
 	mkPayload := func(st JoinStep) []int {
 		var payload []int
 		if st.Resend && prev != nil {
@@ -215,13 +220,23 @@ func runJoin(sc JoinScenario, inBubble bool, rng *rand.Rand) *JoinTrace {
 			if sc.Disc != "unite" {
 				n = 1
 			}
-			payload = make([]int, n, n+st.Spare)
-			if st.Nil && sc.Disc == "unite" {
-				payload = nil
-			}
-			for i := range payload {
-				payload[i] = next
-				next++
+			if st.Win && sc.Disc == "unite" && st.Off+n <= sc.WinBase {
+				if winBase == nil {
+					winBase = make([]int, sc.WinBase)
+					for i := range winBase {
+						winBase[i] = 1000000 + i
+					}
+				}
+				payload = winBase[st.Off : st.Off+n]
+			} else {
+				payload = make([]int, n, n+st.Spare)
+				if st.Nil && sc.Disc == "unite" {
+					payload = nil
+				}
+				for i := range payload {
+					payload[i] = next
+					next++
+				}
 			}
 		}
 		prev = payload
@@ -236,7 +251,7 @@ func runJoin(sc JoinScenario, inBubble bool, rng *rand.Rand) *JoinTrace {
 		for _, st := range sc.Steps[:preNew] {
 			payload := mkPayload(st)
 			ptr, cp := sliceID(payload)
-			rec := inRec{A: len(tr.InData), B: len(tr.InData) + len(payload), WS: 0, WC: 0, Ptr: ptr, Cap: cp, slice: payload}
+			rec := inRec{A: len(tr.InData), B: len(tr.InData) + len(payload), WS: 0, WC: 0, Ptr: ptr, Cap: cp, slice: payload, full: slices.Clone(payload[:cap(payload)])}
 			send(payload)
 			tr.InData = append(tr.InData, payload...)
 			tr.In = append(tr.In, rec)
@@ -288,7 +303,7 @@ func runJoin(sc JoinScenario, inBubble bool, rng *rand.Rand) *JoinTrace {
 			}
 			payload := mkPayload(st)
 			ptr, cp := sliceID(payload)
-			rec := inRec{A: len(tr.InData), B: len(tr.InData) + len(payload), WS: now(), Ptr: ptr, Cap: cp, slice: payload}
+			rec := inRec{A: len(tr.InData), B: len(tr.InData) + len(payload), WS: now(), Ptr: ptr, Cap: cp, slice: payload, full: slices.Clone(payload[:cap(payload)])}
 			sys.send(payload)
 			rec.WC = now()
 			tr.InData = append(tr.InData, payload...)
@@ -485,6 +500,17 @@ drain:
 			o.ChangedAt = "found modified at the end of the scenario"
 		}
 	}
+	// what was written to the input stays the producer's memory: nobody may have written to it
+	// (the harness never does: retained output slices are only poisoned in copy mode)
+	if tr.ProducerDone {
+		for i := range tr.In {
+			in := &tr.In[i]
+			if !slices.Equal(in.slice[:cap(in.slice)], in.full) {
+				tr.InputModified = fmt.Sprintf("input slice #%d (len %d, cap %d) was written to: now %v, when sent %v", i, len(in.slice), cap(in.slice), in.slice[:cap(in.slice)], in.full)
+				break
+			}
+		}
+	}
 	return tr
 }
 
@@ -524,6 +550,9 @@ func judgeJoin(sc JoinScenario, tr *JoinTrace, inBubble bool) (fs []joinFinding,
 	stopped := sc.StopKind != ""
 
 	// ownership (C08) is judged on every trace, complete or not
+	if tr.InputModified != "" {
+		add("C08", "input-modified", "the discipline wrote to memory of an input slice: %s", tr.InputModified)
+	}
 	for i, o := range tr.Out {
 		if o.ChangedAt != "" {
 			add("C08", "modified", "output slice #%d %v was modified while the consumer owned it (%s); mode no_copy=%v", i, o.Data, o.ChangedAt, sc.NoCopy)
@@ -647,6 +676,7 @@ func judgeJoin(sc JoinScenario, tr *JoinTrace, inBubble bool) (fs []joinFinding,
 		add("C03", "concatenation", "concatenation of the output slices differs from the input stream at position %d (out len %d, in len %d): out=%v in=%v", i, len(cat), len(tr.InData), cat[max(0, i-2):min(len(cat), i+4)], tr.InData[max(0, i-2):min(len(tr.InData), i+4)])
 		if isUnite {
 			judgeUniteByValue(sc, tr, add)
+			judgeUniteBySearch(sc, tr, add)
 		}
 		return // positional oracles below need the equality
 	}
@@ -796,7 +826,7 @@ func judgeJoin(sc JoinScenario, tr *JoinTrace, inBubble bool) (fs []joinFinding,
 // JoinSize elements must be an output of its own that comes after everything written before it.
 func judgeUniteByValue(sc JoinScenario, tr *JoinTrace, add func(prop, key, format string, a ...any)) {
 	for _, st := range sc.Steps {
-		if st.Resend {
+		if st.Resend || st.Win {
 			return
 		}
 	}
@@ -841,6 +871,35 @@ func judgeUniteByValue(sc JoinScenario, tr *JoinTrace, add func(prop, key, forma
 				add("C11", "oversize-overtakes", "input slice #%d of %d >= JoinSize %d elements was delivered (output #%d) before input slice #%d that was written earlier (output #%d)", k, n, sc.J, oi, e, oe)
 				return
 			}
+		}
+	}
+}
+
+// judgeUniteBySearch is C11 without any assumption about unique elements (slices re-sent,
+// overlapping windows of one array): the content of every non-empty input slice must occur
+// contiguously inside at least one output slice. An accidental occurrence can hide a loss, it
+// can never produce an alarm.
+func judgeUniteBySearch(sc JoinScenario, tr *JoinTrace, add func(prop, key, format string, a ...any)) {
+	if !tr.Closed {
+		return
+	}
+	for k, in := range tr.In {
+		want := tr.InData[in.A:in.B]
+		if len(want) == 0 {
+			continue
+		}
+		found := false
+		for _, o := range tr.Out {
+			for s := 0; s+len(want) <= len(o.Data) && !found; s++ {
+				found = slices.Equal(o.Data[s:s+len(want)], want)
+			}
+			if found {
+				break
+			}
+		}
+		if !found {
+			add("C11", "not-whole-anywhere", "input slice #%d %v occurs contiguously in no output slice although the output was read until it closed", k, want)
+			return
 		}
 	}
 }
@@ -1034,6 +1093,33 @@ func genJoinScenario(rng *rand.Rand, g joinGen) JoinScenario {
 			st.Gap = 0
 		}
 		sc.Steps = append(sc.Steps, st)
+	}
+	if sc.Disc == "unite" && rng.IntN(8) == 0 {
+		// every slice is a window of one shared array: overlapping, out of memory order, with
+		// the rest of the array as spare capacity - all of it the producer's memory
+		maxLen := 1
+		for _, st := range sc.Steps {
+			maxLen = max(maxLen, st.Len)
+		}
+		sc.WinBase = 2*maxLen + 8 + rng.IntN(4*maxLen+1)
+		off := 0
+		for i := range sc.Steps {
+			st := &sc.Steps[i]
+			if st.Nil || st.Resend {
+				continue
+			}
+			st.Win, st.Spare = true, 0
+			switch rng.IntN(3) {
+			case 0: // sliding, overlapping
+				off += 1 + rng.IntN(max(st.Len, 1))
+			case 1: // anywhere (also backwards)
+				off = rng.IntN(sc.WinBase)
+			}
+			if off+st.Len > sc.WinBase {
+				off = rng.IntN(sc.WinBase - st.Len + 1)
+			}
+			st.Off = off
+		}
 	}
 	if T > 0 {
 		switch rng.IntN(3) {
